@@ -35,6 +35,13 @@ def cases(draw):
     return {'mset': draw(mibgen.module_sets(_profile())), 'genTexts': draw(st.booleans())}
 
 
+@st.composite
+def multi_cases(draw):
+    prof = setcheck.profile_for(None, backends=('json',), dialects=('v2', 'v2', 'v2', 'v1'), modules=(2, 3), decls=(3, 14),
+                                texts='short', skipblocks=False)
+    return {'mset': draw(mibgen.module_sets(prof)), 'genTexts': draw(st.booleans())}
+
+
 def prop(case, rec):
     mset = case['mset']
     c, mm = setcheck.evaluate(mset, backends=('json',), genTexts=case['genTexts'])
@@ -51,10 +58,30 @@ def prop(case, rec):
     rec.sample({'texts': dict((k, v[:800]) for k, v in c.texts.items()), 'genTexts': case['genTexts']})
 
 
+def compile_prop(case, rec):
+    """The same oracle on the documents one MibCompiler.compile() call writes for the whole set (shared parser,
+    symbol-table generator and code generator objects across the modules)."""
+    from vlib.core import Violation
+    mset = case['mset']
+    texts, mm = setcheck.evaluate_compile(mset, genTexts=bool(case.get('genTexts')))
+    rec.evaluated()
+    rec.count('compile-route.sets')
+    if len(mset['modules']) > 1:
+        rec.mark_nontrivial(setcheck.set_digest(['compile', mset]))
+    for backend, facet, detail in mm:
+        root = facet.split('.')[0]
+        if facet in FACETS or root in FACETS:
+            raise Violation('%s:%s' % (backend, facet), detail, case, {'texts': texts})
+
+
 def run(ctx):
     ctx.search('json', cases, prop, ctx.pick(3000, 60000))
+    ctx.search('compile', multi_cases, compile_prop, ctx.pick(1600, 30000))
 
 
 def replay(ctx, data):
     from vlib.core import Recorder
-    prop(data['case'], Recorder(ctx.findings))
+    if data.get('search') == 'compile':
+        compile_prop(data['case'], Recorder(ctx.findings))
+    else:
+        prop(data['case'], Recorder(ctx.findings))
